@@ -4,6 +4,7 @@ C04 — property theorems (statements only; helper lemmas live in `Proofs/C04*.l
 import Mahotas.Proofs.C04Flood
 import Mahotas.Proofs.C04Term
 import Mahotas.Proofs.C04Lines
+import Mahotas.Proofs.C04Order
 open Mahotas Mahotas.C04
 
 /-- **C04-T3 (the kernel is the specified flooding).** For every surface (any rank, shape, values),
@@ -117,3 +118,92 @@ example :
     (cwatershedModel surf mk [3, 3] bc).res = #[1, 1, 2, 1, 2, 2] ∧
     (cwatershedSpec surf mk [3, 3] bc).lines.data = #[false, true, true, true, false, false] ∧
     (cwatershedSpec surf mk [3, 3] bc).queue = [] := by decide +kernel
+
+/-- **C04-T7a (the specified flooding only looks at the order of the costs).** Let `surf` and `surf'` be
+two surfaces of one shape whose values compare alike at every pair of pixels (`surf[i] < surf[j]` exactly
+when `surf'[i] < surf'[j]`; equal values are then equal on both sides as well). Then, for every marker
+image and every neighbourhood — no further hypothesis — the specification flooding returns the same label
+image and the same lines image for both surfaces (the two runs pop the same pixel with the same insertion
+index at every iteration: the queue is only ever *compared*, by (cost, insertion index), and ties are
+broken by the insertion counter, which does not depend on the costs). -/
+theorem C04_spec_order_invariant (surf surf' markers : Img Int) (bshape : List Nat) (bc : Array Int)
+    (hs : surf'.shape = surf.shape)
+    (hord : ∀ i j, i < shapeSize surf.shape → j < shapeSize surf.shape →
+      (surf.data.getD i 0 < surf.data.getD j 0 ↔ surf'.data.getD i 0 < surf'.data.getD j 0)) :
+    (cwatershedSpec surf' markers bshape bc).label = (cwatershedSpec surf markers bshape bc).label ∧
+    (cwatershedSpec surf' markers bshape bc).lines = (cwatershedSpec surf markers bshape bc).lines := by
+  have h := cwatershedSpec_orel (surf := surf) (surf' := surf') ⟨hs, hord⟩ markers bshape bc
+  exact ⟨h.label, h.lines⟩
+
+/-- **C04-T7 (order-isomorphism invariance of the flooding — labels and lines, specification and kernel
+model).** If two surfaces of one shape compare alike at every pair of pixels (as in
+`C04_spec_order_invariant`: `surf[i] < surf[j] ↔ surf'[i] < surf'[j]` for all flat indices inside the
+image), then for markers of the surface's shape and a neighbourhood of the surface's rank both the
+specification flooding and the transliterated kernel `cwatershed<T>` return the same labels and the same
+lines for `surf'` as for `surf`. In particular the result is unchanged by any cost map that is strictly
+increasing on the values that occur (`C04_strict_mono_invariant`), e.g. by the reduction of a surface to
+its dense ranks (`C04_dense_rank_invariant`), which is what the harness sends for floating surfaces. -/
+theorem C04_order_isomorphism_invariant (surf surf' markers : Img Int) (bshape : List Nat) (bc : Array Int)
+    (hm : markers.shape = surf.shape) (hb : bshape.length = surf.shape.length)
+    (hs : surf'.shape = surf.shape)
+    (hord : ∀ i j, i < shapeSize surf.shape → j < shapeSize surf.shape →
+      (surf.data.getD i 0 < surf.data.getD j 0 ↔ surf'.data.getD i 0 < surf'.data.getD j 0)) :
+    (cwatershedSpec surf' markers bshape bc).label = (cwatershedSpec surf markers bshape bc).label ∧
+    (cwatershedSpec surf' markers bshape bc).lines = (cwatershedSpec surf markers bshape bc).lines ∧
+    (cwatershedModel surf' markers bshape bc).res = (cwatershedModel surf markers bshape bc).res ∧
+    (cwatershedModel surf' markers bshape bc).lines = (cwatershedModel surf markers bshape bc).lines := by
+  obtain ⟨h1, h2⟩ := C04_spec_order_invariant surf surf' markers bshape bc hs hord
+  have r := C04_model_refines_flood surf markers bshape bc hm hb
+  have r' := C04_model_refines_flood surf' markers bshape bc (by rw [hm, hs]) (by rw [hb, hs])
+  exact ⟨h1, h2, by rw [r.1, r'.1, h1], by rw [r.2.1, r'.2.1, h2]⟩
+
+/-- **C04-T7b (strictly increasing cost maps).** Let `phi : ℤ → ℤ` be strictly increasing *on the values
+that occur in the surface* (`a < b → phi a < phi b` for `a, b` among the surface's values; nothing is
+asked elsewhere), the surface holding at least as many values as its shape has pixels. Then flooding
+`phi ∘ surf` gives the same labels and the same lines as flooding `surf` — for the specification and for
+the kernel model. -/
+theorem C04_strict_mono_invariant (phi : Int → Int) (surf markers : Img Int) (bshape : List Nat)
+    (bc : Array Int) (hm : markers.shape = surf.shape) (hb : bshape.length = surf.shape.length)
+    (hsz : shapeSize surf.shape ≤ surf.data.size)
+    (hphi : ∀ a ∈ surf.data.toList, ∀ b ∈ surf.data.toList, a < b → phi a < phi b) :
+    (cwatershedSpec (mapSurf phi surf) markers bshape bc).label = (cwatershedSpec surf markers bshape bc).label ∧
+    (cwatershedSpec (mapSurf phi surf) markers bshape bc).lines = (cwatershedSpec surf markers bshape bc).lines ∧
+    (cwatershedModel (mapSurf phi surf) markers bshape bc).res = (cwatershedModel surf markers bshape bc).res ∧
+    (cwatershedModel (mapSurf phi surf) markers bshape bc).lines = (cwatershedModel surf markers bshape bc).lines :=
+  have h := mapSurf_ordEquiv phi surf hsz hphi
+  C04_order_isomorphism_invariant surf (mapSurf phi surf) markers bshape bc hm hb h.shape h.lt
+
+/-- **C04-T7c (the rank reduction of the harness is sound).** Replacing every cost by its *dense rank*
+(the number of distinct values of the surface below it — `numpy.unique(surf, return_inverse=True)[1]`)
+changes neither the labels nor the lines, for the specification and for the kernel model: the dense rank
+is strictly increasing on the values that occur. So a surface may be sent to the Lean driver as its dense
+ranks; for a floating surface without NaN the ranks are an integer surface with the very order pattern
+of the floats (`-0.0 = 0.0` on both sides). -/
+theorem C04_dense_rank_invariant (surf markers : Img Int) (bshape : List Nat) (bc : Array Int)
+    (hm : markers.shape = surf.shape) (hb : bshape.length = surf.shape.length)
+    (hsz : shapeSize surf.shape ≤ surf.data.size) :
+    (cwatershedSpec (mapSurf (denseRank surf.data) surf) markers bshape bc).label
+      = (cwatershedSpec surf markers bshape bc).label ∧
+    (cwatershedSpec (mapSurf (denseRank surf.data) surf) markers bshape bc).lines
+      = (cwatershedSpec surf markers bshape bc).lines ∧
+    (cwatershedModel (mapSurf (denseRank surf.data) surf) markers bshape bc).res
+      = (cwatershedModel surf markers bshape bc).res ∧
+    (cwatershedModel (mapSurf (denseRank surf.data) surf) markers bshape bc).lines
+      = (cwatershedModel surf markers bshape bc).lines :=
+  C04_strict_mono_invariant (denseRank surf.data) surf markers bshape bc hm hb hsz
+    (denseRank_strictMonoOn surf.data)
+
+/-- non-vacuity of T7b: every affine map with positive slope qualifies, for every surface -/
+example (surf markers : Img Int) (bshape : List Nat) (bc : Array Int)
+    (hm : markers.shape = surf.shape) (hb : bshape.length = surf.shape.length)
+    (hsz : shapeSize surf.shape ≤ surf.data.size) :
+    (cwatershedModel (mapSurf (fun x => 3 * x - 7) surf) markers bshape bc).res
+      = (cwatershedModel surf markers bshape bc).res :=
+  (C04_strict_mono_invariant (fun x => 3 * x - 7) surf markers bshape bc hm hb hsz
+    (by intro a _ b _ h; show 3 * a - 7 < 3 * b - 7; omega)).2.2.1
+
+/-- non-vacuity of T7c: the dense ranks of a concrete surface (they differ from the surface), and the
+hypotheses of `C04_order_isomorphism_invariant` hold between a surface and a non-affine re-valuation -/
+example :
+    (mapSurf (denseRank #[5, -7, 100, 5, 0, 3]) ⟨[2, 3], #[5, -7, 100, 5, 0, 3]⟩ : Img Int).data
+      = #[3, 0, 4, 3, 1, 2] := by decide +kernel
